@@ -158,8 +158,10 @@ var valKinds = []valKind{
 	{name: "int", typ: "int", mk: "v", hash: "i64(x)"},
 	{name: "string", typ: "string", mk: `"v" + itoa(v)`, hash: "hstr(x)"},
 	{name: "slice", typ: "[]int", mk: "[]int{v, v + 1, v * 2}", hash: "hsl(x)"},
-	{name: "pointer", typ: "*VN", mk: `&VN{val: v, s: "n" + itoa(v)}`, hash: "hvn(x)",
-		decls: "type VN :struct {\n\tval: int\n\ts: string\n}\nfunc hvn(p: *VN) => i64 {\n\tif p == nil {\n\t\treturn -5\n\t}\n\treturn i64(p.val)*31 + hstr(p.s)\n}\n"},
+	{name: "pointer", typ: "*VN", mk: `mkvn(v)`, hash: "hvn(x)",
+		decls: "type VN :struct {\n\tval: int\n\ts: string\n}\nfunc mkvn(v: int) => *VN {\n\tif v%5 == 0 {\n\t\treturn nil // a present key may hold nil\n\t}\n\treturn &VN{val: v, s: \"n\" + itoa(v)}\n}\nfunc hvn(p: *VN) => i64 {\n\tif p == nil {\n\t\treturn -5\n\t}\n\treturn i64(p.val)*31 + hstr(p.s)\n}\n"},
+	{name: "iface", typ: "interface{}", mk: `mkiv(v)`, hash: "hiv(x)",
+		decls: "func mkiv(v: int) => interface{} {\n\tswitch v % 4 {\n\tcase 0:\n\t\treturn nil\n\tcase 1:\n\t\treturn v\n\tcase 2:\n\t\treturn \"i\" + itoa(v)\n\t}\n\treturn []int{v}\n}\nfunc hiv(x: interface{}) => i64 {\n\tswitch t := x.(type) {\n\tcase nil:\n\t\treturn -6\n\tcase int:\n\t\treturn i64(t) * 3\n\tcase string:\n\t\treturn hstr(t)\n\tcase []int:\n\t\treturn hsl(t) + 1\n\t}\n\treturn -7\n}\n"},
 }
 
 const common = `
